@@ -7,6 +7,15 @@
 // the batch points are paired per tolerance-rounded point time (k-th occurrence); union passes
 // every batch through once. The pipeline documentation describes join in terms of points only;
 // what it leaves open for batches was taken from /repo/join.go and is listed in batchAssumptions.
+//
+// Generator classes: (1) independent parents: every parent draws its own query rounds, gaps and
+// 0-4 points per batch with small steps; (2) lined-up parents (LinedUp): the rounds are generated
+// for all parents together, so that the batches of a round and group nearly always meet in one
+// join set, and every parent reports its own subset (with repeats) of the round's 2-6 row times:
+// inside a set the parents' rows have gaps against each other in every relative position (a
+// later parent older than an earlier one, a middle parent ahead of both neighbours, a parent
+// whose rows are exhausted early). This is the class in which lining the rows of >= 3 batches up
+// is not a walk in lock-step.
 package c12
 
 import (
@@ -53,19 +62,36 @@ type BatchCase struct {
 	// join/union, so that the parent's batches arrive as separate begin / point / end messages
 	// (with size hint 0) and are put together again by the consumer's batch buffer
 	Piecewise []bool `json:"piecewise,omitempty"`
+	// LinedUp: the parents were generated round by round from common row times (genLinedUp);
+	// informational (label), the data is in Parents
+	LinedUp bool `json:"linedup,omitempty"`
+	// Period of the queries in seconds (0: batchPeriod); the points of a batch lie in (tmax-period, tmax]
+	Period int64 `json:"period,omitempty"`
+}
+
+func (c BatchCase) period() int64 {
+	if c.Period > 0 {
+		return c.Period
+	}
+	return batchPeriod
 }
 
 const batchPeriod = 10
 
 func genBatch(t *rapid.T, r *kit.Rec) BatchCase {
 	var c BatchCase
-	switch rapid.IntRange(0, 7).Draw(t, "kind") {
+	switch rapid.IntRange(0, 9).Draw(t, "kind") {
 	case 0, 1:
 		c.Union = true
 	case 2, 3:
 		return genBatchOn(t, r)
+	case 7, 8, 9:
+		c.LinedUp = true
 	}
 	np := rapid.IntRange(2, 3).Draw(t, "nparents")
+	if c.LinedUp {
+		np = rapid.SampledFrom([]int{2, 3, 3, 3}).Draw(t, "nparents-linedup")
+	}
 	c.GroupBy = rapid.Bool().Draw(t, "groupby")
 	groups := 1
 	if c.GroupBy {
@@ -74,7 +100,12 @@ func genBatch(t *rapid.T, r *kit.Rec) BatchCase {
 	// the parents' queries run with the same every() (aligned batch times, the common set-up);
 	// a gap of several every() is a query execution that returned nothing or was skipped
 	every := int64(rapid.SampledFrom([]int{1, 1, 2, 3}).Draw(t, "every"))
-	for p := 0; p < np; p++ {
+	if c.LinedUp {
+		c.Tolerance = int64(rapid.SampledFrom([]int{0, 0, 1, 2, 3}).Draw(t, "tol"))
+		c.Period = 30
+		c.Parents = genLinedUp(t, np, groups, every, c.Tolerance, c.Period)
+	}
+	for p := 0; p < np && !c.LinedUp; p++ {
 		// one round = one execution of the parent's query: one batch per group that has data
 		rounds := 1 + rapid.IntRange(0, 4).Draw(t, "rounds")
 		if rapid.IntRange(0, 11).Draw(t, "silent") == 11 {
@@ -107,7 +138,9 @@ func genBatch(t *rapid.T, r *kit.Rec) BatchCase {
 			c.Rename = "u"
 		}
 	} else {
-		c.Tolerance = int64(rapid.SampledFrom([]int{0, 0, 1, 2, 3}).Draw(t, "tol"))
+		if !c.LinedUp {
+			c.Tolerance = int64(rapid.SampledFrom([]int{0, 0, 1, 2, 3}).Draw(t, "tol"))
+		}
 		c.Fill = rapid.SampledFrom([]string{"", "", "null", "int", "float"}).Draw(t, "fill")
 		c.Delim = rapid.SampledFrom([]string{"", "", "", "_"}).Draw(t, "delim")
 		if rapid.Bool().Draw(t, "sname") {
@@ -125,6 +158,75 @@ func genBatch(t *rapid.T, r *kit.Rec) BatchCase {
 		}
 	}
 	return c
+}
+
+// genLinedUp: the query rounds are generated for all parents together. In a round every parent's
+// query runs at the same time (same tmax; a parent skips a round now and then, or has no data for
+// a group), and every round and group has 2-9 row times a step apart (one second, or mostly the
+// tolerance if that is longer, so that the rounded row times stay apart; the period is 30s); for each row time a non-empty subset of the parents is drawn that report it (mostly one
+// parent, so that the parents' rows have gaps against each other in every order), a row now and
+// then twice. The batches stay
+// what a query produces: time-ordered points within (tmax-period, tmax], at most one batch per
+// group and execution, non-decreasing tmax per parent.
+func genLinedUp(t *rapid.T, np, groups int, every, tolerance, period int64) [][]BB {
+	parents := make([][]BB, np)
+	pending := make([]int64, np) // seconds since the parent's previous batch
+	// subsets of the parents as bit masks: single parents twice as likely as pairs and all
+	masks := []int{1, 2, 3, 1, 2, 3}
+	if np == 3 {
+		masks = []int{1, 2, 4, 1, 2, 4, 3, 5, 6, 7}
+	}
+	rounds := rapid.SampledFrom([]int{2, 3, 1, 4}).Draw(t, "rounds")
+	for q := 0; q < rounds; q++ {
+		gap := every * int64(rapid.SampledFrom([]int{1, 1, 1, 2}).Draw(t, "gap"))
+		executed := make([]bool, np)
+		for p := range pending {
+			pending[p] += gap
+			executed[p] = rapid.IntRange(0, 9).Draw(t, "skipped-round") != 5
+		}
+		for g := 0; g < groups; g++ {
+			cur := make([]*BB, np)
+			prev := make([]int, np)
+			for p := 0; p < np; p++ {
+				if !executed[p] || (groups > 1 && rapid.IntRange(0, 7).Draw(t, "nodata") == 5) {
+					continue // the query was not executed or returned nothing for the group
+				}
+				cur[p] = &BB{G: g, Gap: pending[p]}
+				pending[p] = 0
+			}
+			step := 1
+			if tolerance > 1 && rapid.IntRange(0, 3).Draw(t, "step") > 0 {
+				step = int(tolerance)
+			}
+			max := int(period-1) / step
+			if max > 9 {
+				max = 9
+			}
+			nslots := rapid.SampledFrom([]int{5, 4, 6, 3, 7, 2, 8, 9}).Draw(t, "rows")
+			if nslots > max {
+				nslots = max
+			}
+			for s := step; s <= nslots*step; s += step {
+				mask := rapid.SampledFrom(masks).Draw(t, "row-of")
+				for p := 0; p < np; p++ {
+					if cur[p] == nil || mask&(1<<uint(p)) == 0 {
+						continue
+					}
+					n := rapid.SampledFrom([]int{1, 1, 1, 1, 1, 1, 1, 2}).Draw(t, "times")
+					for k := 0; k < n; k++ {
+						cur[p].Pts = append(cur[p].Pts, BP{Off: int64(s - prev[p]), V: int64(rapid.IntRange(0, 99).Draw(t, "v"))})
+						prev[p] = s
+					}
+				}
+			}
+			for p := 0; p < np; p++ {
+				if cur[p] != nil {
+					parents[p] = append(parents[p], *cur[p])
+				}
+			}
+		}
+	}
+	return parents
 }
 
 // genBatchPoints: 0-4 points, time ordered, within the batch's period.
@@ -272,7 +374,7 @@ func (c *BatchCase) closeOnGroups(gp, sp int) {
 func (c BatchCase) script() string {
 	var s strings.Builder
 	for p := range c.Parents {
-		fmt.Fprintf(&s, "var %s = batch|query('SELECT v, n FROM \"db\".\"rp\".%s').period(%ds).every(%ds)", pnames[p], pnames[p], batchPeriod, batchPeriod)
+		fmt.Fprintf(&s, "var %s = batch|query('SELECT v, n FROM \"db\".\"rp\".%s').period(%ds).every(%ds)", pnames[p], pnames[p], c.period(), c.period())
 		switch {
 		case c.On && c.Specific[p]:
 			s.WriteString(".groupBy('dc', 'host')")
@@ -330,7 +432,7 @@ func (c BatchCase) batches() [][]kit.Bt {
 	out := make([][]kit.Bt, len(c.Parents))
 	serial := int64(0)
 	for p, bs := range c.Parents {
-		tmax := t0 + batchPeriod*sec
+		tmax := t0 + c.period()*sec
 		for _, b := range bs {
 			tmax += b.Gap * sec
 			var tags map[string]string
@@ -343,7 +445,7 @@ func (c BatchCase) batches() [][]kit.Bt {
 				tags = map[string]string{"host": fmt.Sprintf("h%d", b.G)}
 			}
 			bt := kit.Bt{Name: pnames[p], Tags: tags, TMax: tmax, Points: []kit.Pt{}}
-			pt := tmax - batchPeriod*sec
+			pt := tmax - c.period()*sec
 			ptags := map[string]string{"x": pnames[p]} // point tags: the series tags and the parent's name
 			for k, v := range tags {
 				ptags[k] = v
@@ -392,6 +494,66 @@ type batchRefInfo struct {
 	incomplete bool // a set of batches without one of the parents
 	fanout     bool // with on(): a general batch joined with >= 2 specific batches
 	outputs    int
+	// row patterns inside one set of paired batches (rounded point times; next_p(t): the first row
+	// of parent p at or after t)
+	laterOlder bool // for some row time t and parents i < k: next_k(t) < next_i(t)
+	staggered3 bool // for some row time t and parents i < j < k: next_k(t) < next_i(t) < next_j(t)
+	partialRow bool // a row time that some but not all present batches of a set have
+}
+
+// rowPatterns classifies how the rows of the batches of one set lie against each other (labels
+// only; derived from the data, not from the code under test).
+func rowPatterns(set []*kit.Bt, tol int64, info *batchRefInfo) {
+	var times [][]int64
+	all := map[int64]int{}
+	for _, b := range set {
+		if b == nil {
+			continue
+		}
+		var ts []int64
+		seen := map[int64]bool{}
+		for _, pt := range b.Points {
+			rt := round(pt.Time, tol)
+			ts = append(ts, rt)
+			if !seen[rt] {
+				seen[rt] = true
+				all[rt]++
+			}
+		}
+		times = append(times, ts)
+	}
+	const none = int64(-1)
+	next := func(p int, t int64) int64 {
+		for _, x := range times[p] {
+			if x >= t {
+				return x
+			}
+		}
+		return none
+	}
+	for t, n := range all {
+		if n < len(times) {
+			info.partialRow = true
+		}
+		for i := range times {
+			ni := next(i, t)
+			if ni == none {
+				continue
+			}
+			for k := i + 1; k < len(times); k++ {
+				nk := next(k, t)
+				if nk == none || nk >= ni {
+					continue
+				}
+				info.laterOlder = true
+				for j := i + 1; j < k; j++ {
+					if nj := next(j, t); nj != none && nj > ni {
+						info.staggered3 = true
+					}
+				}
+			}
+		}
+	}
 }
 
 // joinSet joins one set of paired batches (nil: the parent has no batch in the set) into the
@@ -553,6 +715,7 @@ func (c BatchCase) expectedJoin(bts [][]kit.Bt) ([]string, batchRefInfo) {
 					info.incomplete = true
 				}
 			}
+			rowPatterns(set, tol, &info)
 			if j, ok := c.joinSet(set, any.Tags, k.t); ok {
 				out = append(out, j)
 			}
@@ -645,6 +808,18 @@ func runBatch(c BatchCase, cc *kit.Case) {
 		if info.fanout {
 			cc.Label("on():fan-out")
 		}
+		if info.partialRow {
+			cc.Label("rows:time-missing-in-a-paired-batch")
+		}
+		if info.laterOlder {
+			cc.Label("rows:later-parent-has-older-row")
+		}
+		if info.staggered3 {
+			cc.Label("rows:3-parents-first-at-T,middle-ahead,last-behind")
+		}
+	}
+	if c.LinedUp {
+		cc.Label("lined-up-parents")
 	}
 	if info.dupBatch {
 		cc.Label("duplicate-batch-time")
@@ -771,11 +946,11 @@ func runBatch(c BatchCase, cc *kit.Case) {
 	}
 }
 
-const batchRule = "rapid: 2-3 batch|query parents fed with time-ordered batch sequences (1-5 query rounds, 1-3 groups with missing series, 0-4 time-ordered points per batch, lagging/silent parents) x join(as, tolerance, fill none/null/number, delimiter, streamName) or union(rename) x >=4 gated arrival schedules; " +
+const batchRule = "rapid: 2-3 batch|query parents fed with time-ordered batch sequences (1-5 query rounds, 1-3 groups with missing series, 0-4 time-ordered points per batch, lagging/silent parents; or lined-up parents: 1-4 rounds executed by all parents together (a parent skips a round or has no data for a group now and then), per round and group 2-9 row times a step apart of which every parent reports its own subset, mostly one parent per row time, a row now and then twice, so that inside one set of paired batches of 2-3 parents the rows have gaps against each other in every order) x join(as, tolerance, fill none/null/number, delimiter, streamName) or union(rename) x >=4 gated arrival schedules; " +
 	"oracle: schedule-independent pairing model (batches per group and rounded batch time, points per rounded point time), outputs as multisets (+ per-parent order and non-decreasing batch time for union); non-trivial = a schedule in which one parent is >=2 batches ahead of another at some moment and a rounded batch time occurs twice in one parent and group or a rounded point time twice in one batch; distinct by case hash"
 
 var batchAssumptions = []string{
-	"JoinBatch: every parent delivers its batches in non-decreasing batch time (tmax) order, at most one batch per group and query execution, the points of a batch in time order within (tmax-period, tmax]; all parents end together (collectors closed)",
+	"JoinBatch: every parent delivers its batches in non-decreasing batch time (tmax) order, at most one batch per group and query execution, the points of a batch in time order within (tmax-period, tmax] (period 10s; 30s in the lined-up class, where queries of one round run at the same time and so carry the same tmax); which row times a parent's query returns is the data's business: any subset, any repeats; all parents end together (collectors closed)",
 	"JoinBatch: the batches are fed directly into the collectors of the task's query nodes (what replay does; kit.Env.BatchCollectorsInScriptOrder maps collectors to the script's query nodes); a batch's group is its tags",
 	"JoinBatch (from join.go; the JoinNode documentation speaks of points only): batches of different parents are paired like stream points, per group and batch time (tmax) rounded to the tolerance, the k-th occurrence in one parent with the k-th in the others; the joined batch carries the rounded batch time, the group's tags and streamName or the name of the first present parent",
 	"JoinBatch (from join.go, JoinIntoBatch): inside a set of paired batches the points are paired per point time rounded to the tolerance, k-th occurrence with k-th occurrence; a joined batch point carries the rounded time, the group's tags and the fields prefixed by the as() names; a point missing in a parent (or a whole batch missing in the set) drops the joined point in an inner join and is filled in an outer join (all parents have the same field names, so the names 'copied from another point' are unambiguous)",
